@@ -62,6 +62,11 @@ CHECKS = {
          'Cache coherence of geometric factors after any setter order (bitwise vs fresh object), site budget in runs (non-negative, bounded, consumed by occupancy), per-step sanity of Rcrit/Gcrit/impingement/rate, reference formulas and identities at every visited state.',
          'k values and driving forces are those visited (sample, not sweep); N0 is configuration; the dislocation site type is exempt from N0-based clauses (kawin resolves it through the bulk branch: recorded as an observation in DESIGN.md). Known finding: negative barrier when R* is clamped on grain-boundary sites.',
          'DESIGN.md 4/C14'),
+ 'C19': ('exploration', 1500, 7200,
+         'deterministic simulation: precipitation worlds with stopping conditions whose thresholds are placed from a pilot run; reference latch/stop model walked over the recorded history; TTP calculator with an in-process fake pool executing in a seeded permutation',
+         'Every run: stop step, latches, interpolated times (within the crossing step), -1 for unmet conditions, no un-latching on a further solve; TTP: every table entry equals the reference applied to the run the calculator performed for that temperature, runs start from a reset state, table independent of execution order.',
+         'Thresholds come from a pilot of the same record (early/late/never/already met); TTP is compared with its own runs, not with freshly built models (reset() re-creates PBMs with default grids: recorded as an observation).',
+         'DESIGN.md 4/C19'),
 }
 
 NOT_APPLICABLE = {
